@@ -256,6 +256,10 @@ def _transparent(ctx: Ctx, c: Collector) -> None:
         raise AnalysisError(f"R23: only {n} forwarding adapter methods found (Adapter.send/stop, V3ToV2Adapter.send, V2ToV1Adapter.send confirmed by hand)")
 
 
+class _NeedAtom(Exception):
+    pass
+
+
 def _gating(ctx: Ctx, c: Collector) -> None:
     fi = ctx.func(ADAPT)
     s = ctx.summ(ADAPT)
@@ -300,6 +304,12 @@ def _gating(ctx: Ctx, c: Collector) -> None:
             lb = v if b == ver else const_list(b)
             if la is not None and lb is not None:
                 return {"<": la < lb, "<=": la <= lb, "==": la == lb, "!=": la != lb}[cond[1]]
+        if not T.contains((cond,), ver):
+            # something other than the reported version: both outcomes are looked at (see `other`)
+            l, pol = boolfn.canon_leaf(cond)
+            if l in other:
+                return other[l] == pol
+            raise _NeedAtom(l)
         raise boolfn.NotBoolean(T.show(cond))
 
     def chain(t: Term, v: List[int]) -> Optional[List[str]]:
@@ -333,15 +343,30 @@ def _gating(ctx: Ctx, c: Collector) -> None:
         return cur if cur is not None else t
 
     pr = []
+    other: Dict[Term, bool] = {}
     try:
         for v in ([1], [2], [2, 0], [2, 1, 3], [2, 2], [2, 4, 1], [3], [3, 0], [3, 0, 16]):
             want = ["V2ToV1Adapter", "V3ToV2Adapter"] if v < [2, 2] else ["V3ToV2Adapter"] if v < [3] else []
-            got = chain(replay(res, v), v)
-            if got is None:
-                c.unk("gate", ADAPT, "adapter chain", "returned proxy not understood as a chain of adapters", loc)
-                return
-            if got != want:
-                pr.append(f"version {'.'.join(map(str, v))}: adapters (inner to outer) {got or 'none'} instead of {want or 'none'}")
+            todo: List[Dict[Term, bool]] = [{}]
+            while todo:
+                asg = todo.pop()
+                other.clear()
+                other.update(asg)
+                try:
+                    got = chain(replay(res, v), v)
+                except _NeedAtom as na:
+                    if len(asg) >= 3:
+                        raise boolfn.NotBoolean(T.show(na.args[0]))
+                    todo += [dict(asg, **{}) | {na.args[0]: True}, dict(asg) | {na.args[0]: False}]
+                    continue
+                if got is None:
+                    c.unk("gate", ADAPT, "adapter chain", "returned proxy not understood as a chain of adapters", loc)
+                    return
+                if got != want:
+                    cond = (" when " + " and ".join(("" if val else "not ") + T.show(k)[:50] for k, val in asg.items())) if asg else ""
+                    pr.append(f"version {'.'.join(map(str, v))}{cond}: adapters (inner to outer) {got or 'none'} instead of {want or 'none'}"
+                              + (" (which adapters a simulator gets must depend on the version it reports only)" if asg else ""))
+        other.clear()
     except boolfn.NotBoolean as ex:
         c.unk("gate", ADAPT, "adapter chain", f"threshold test {ex} not understood", loc)
         return
